@@ -57,6 +57,14 @@ func (g *Gen) genFrozen(n int) error {
 			g.oneHitRemergeCase()
 			continue
 		}
+		if i == 50 && g.dumpfiles {
+			// the big merge with few deletions: terms on both sides of 1024 live documents in neighbouring
+			// fields (among them the empty term as a field's first term), dumped
+			g.forceBigVariant = 2
+			g.bigMergeCase()
+			g.forceBigVariant = 0
+			continue
+		}
 		if i == 44 && g.dumpfiles {
 			// a big input merged behind small ones that lack the field / the terms: the reader written from
 			// the layout derives the chunk size from the bitmap it finds
